@@ -28,7 +28,8 @@ RULE = (
     "integer-valued step function u -> (a*u + b + aux) mod m on pytrees (array / tuple / nested dict with "
     "leaves of different shapes); after every rule the real state must equal the Python-loop model exactly "
     "(values, shapes, pytree structure, dtypes). The machine continues from the produced state, so nestings "
-    "arise as histories. Generated wrappers: RepeatedStepper(S, n) for every stepper family = n applications "
+    "arise as histories; functions returned by rollout/repeat are also kept and called again later in the history "
+    "with an aux container (NumPy buffers in the same dict/tuple object) refilled in place. Generated wrappers: RepeatedStepper(S, n) for every stepper family = n applications "
     "(Nyquist-free state if S has odd-order linear terms on an even grid), dt = n*dt, step_fourier = n-fold "
     "step_fourier; build_ic_set = documented sequential key-splitting loop. Non-trivial history: >= 1 "
     "rollout with n >= 2, a window query and pairwise distinct aux entries."
